@@ -129,7 +129,7 @@ Verdict(e) ==
     [] e.ev = "Write"   -> VWrite(e)
     [] e.ev = "Finish"  -> VFinish(e)
     [] e.ev = "Final"   -> VFinal(e)
-    [] e.ev = "SetupFailed" -> Rej("conf_faultfree_creation_failed")
+    [] e.ev = "SetupFailed" -> IF "tolerated" \in DOMAIN e /\ e.tolerated THEN V("", srv, wr, gh) ELSE Rej("conf_faultfree_creation_failed")
     [] OTHER            -> Rej("unknown_event")
 
 TraceInit ==
